@@ -104,6 +104,7 @@ func (c *Cluster) Random(rng *rand.Rand) Router {
 type In struct {
 	Batch     arrow.RecordBatch // nil = zero-row batch of the empty schema
 	Cancel    bool              // send a cancel continuation instead (ends the call)
+	CancelVal *string           // value of the vgi_rpc.cancel key (nil: "true")
 	Meta      [][2]string       // user metadata before the framework keys
 	MetaAfter [][2]string       // ... and after them
 	Hdr       map[string]string // extra HTTP headers of this continuation
@@ -116,6 +117,7 @@ type StreamCall struct {
 	Producer  bool              // follow continuation tokens instead of sending inputs
 	Inputs    []In              // exchange: one continuation per input, in order
 	CancelAt  int               // producer: replace the continuation after that many responses by a cancel (<=0: never)
+	CancelVal *string           // value of the vgi_rpc.cancel key of that cancel (nil: "true")
 	MaxResp   int               // producer: stop after that many responses (default 1000)
 	Hdr       map[string]string // HTTP headers of every request (accept-encoding ...)
 	Storage   *MemStorage       // resolves pointer batches client-side
@@ -331,7 +333,7 @@ func (c *Cluster) RunStream(route Router, sc StreamCall) Result {
 			if cancel {
 				step = "cancel"
 			}
-			u := wire.Turn{Method: sc.Req.Method, StreamState: cursor, CallState: call, Cancel: cancel}
+			u := wire.Turn{Method: sc.Req.Method, StreamState: cursor, CallState: call, Cancel: cancel, CancelValue: sc.CancelVal}
 			if n-1 < len(sc.Inputs) {
 				in := sc.Inputs[n-1]
 				if sc.Resolve != nil {
@@ -364,7 +366,7 @@ func (c *Cluster) RunStream(route Router, sc StreamCall) Result {
 		if sc.Resolve != nil {
 			in = sc.Resolve(cursor, call, in)
 		}
-		u := wire.Turn{Method: sc.Req.Method, Input: in.Batch, StreamState: cursor, CallState: call, Cancel: in.Cancel, Meta: in.Meta, MetaAfter: in.MetaAfter}
+		u := wire.Turn{Method: sc.Req.Method, Input: in.Batch, StreamState: cursor, CallState: call, Cancel: in.Cancel, CancelValue: in.CancelVal, Meta: in.Meta, MetaAfter: in.MetaAfter}
 		r := post(step, func(t *wire.HTTPTarget) wire.HTTPResp { return t.Exchange(u, merge(in.Hdr)) }, !in.Cancel, cursor)
 		if r.Malformed != "" {
 			res.Ended = "malformed"
